@@ -46,6 +46,7 @@ type Call struct {
 	Ghosts  []Let    // ghost instantiation for the callee's ghost variables
 	Asserts []Clause // asserted before the call
 	Assumes []Clause
+	Uses    []*cexpr.Node // lemma / axiom instances assumed before the call
 }
 
 // Func is the contract of one function.
@@ -71,6 +72,7 @@ type Func struct {
 	File     string
 	Line     int
 	Asserts  map[string][]Clause // "assert at <label>"
+	Uses     []*cexpr.Node       // lemma / axiom instances assumed at every exit before the ensures
 }
 
 // Pred is a named predicate or macro.
@@ -85,6 +87,7 @@ type Pred struct {
 type Lemma struct {
 	Name     string
 	Props    []string
+	Params   []string // "name type"
 	Vars     []string
 	Expr     *cexpr.Node
 	Induct   string // variable for induction, "" if none
@@ -244,8 +247,20 @@ func Parse(text, path, pkg string) (*File, error) {
 			if len(fs) == 0 {
 				return nil, perr(rc, fmt.Errorf("lemma needs a name"))
 			}
-			l.Name = fs[0]
-			txt = strings.TrimSpace(txt[len(fs[0]):])
+			if o := strings.Index(txt, "("); o >= 0 && o < len(fs[0])+1 {
+				c := strings.Index(txt, ")")
+				l.Name = strings.TrimSpace(txt[:o])
+				for _, x := range strings.Split(txt[o+1:c], ",") {
+					x = strings.TrimSpace(x)
+					if x != "" {
+						l.Params = append(l.Params, x)
+					}
+				}
+				txt = strings.TrimSpace(txt[c+1:])
+			} else {
+				l.Name = fs[0]
+				txt = strings.TrimSpace(txt[len(fs[0]):])
+			}
 			if m := tagRe.FindStringSubmatch(txt); m != nil {
 				txt = txt[len(m[0]):]
 				for _, w := range strings.Fields(m[1]) {
@@ -259,6 +274,9 @@ func Parse(text, path, pkg string) (*File, error) {
 				fs := strings.Fields(r)
 				l.Induct = strings.TrimSuffix(fs[0], ":")
 				txt = strings.TrimSpace(r[len(fs[0]):])
+			}
+			txt = strings.TrimPrefix(strings.TrimSpace(txt), ":")
+			if false {
 			}
 			n, err := cexpr.Parse(txt)
 			if err != nil {
@@ -402,10 +420,12 @@ func Parse(text, path, pkg string) (*File, error) {
 				if err != nil {
 					return nil, perr(rc, err)
 				}
-				if curLoop != nil {
+				if curCall != nil {
+					curCall.Uses = append(curCall.Uses, ns...)
+				} else if curLoop != nil {
 					curLoop.Uses = append(curLoop.Uses, ns...)
 				} else {
-					return nil, perr(rc, fmt.Errorf("use outside loop"))
+					cur.Uses = append(cur.Uses, ns...)
 				}
 			case "split":
 				if curLoop == nil {
